@@ -26,12 +26,14 @@ pub mod builder_utils {
     use super::*;
     /// returns normally iff both durations are <= 1000 years: Kani harnesses ensure_returns_when_within_1000_years /
     /// ensure_panics_when_beyond_1000_years (complete over all Durations). Here: calling it is safe only within the limit.
+//@@ SIG file=src/common/builder_utils.rs owner=- name=ensure_expirations_or_panic
     #[verifier::external_body]
     pub fn ensure_expirations_or_panic(time_to_live: Option<Duration>, time_to_idle: Option<Duration>)
         requires
             time_to_live.is_some() ==> dur_ns(time_to_live.unwrap()) <= max_dur_ns(), //@ [C17,C08]
             time_to_idle.is_some() ==> dur_ns(time_to_idle.unwrap()) <= max_dur_ns(), //@ [C17,C08]
     { unimplemented!() }
+//@@ END
 }
 } // mod env
 
@@ -122,6 +124,7 @@ impl<K, V, S> Cache<K, V, S> {
     pub uninterp spec fn sp_weigher(&self) -> Option<Weigher<K, V>>;
     pub uninterp spec fn sp_ttl(&self) -> Option<Duration>;
     pub uninterp spec fn sp_tti(&self) -> Option<Duration>;
+//@@ SIG file=src/unsync/cache.rs owner=Cache name=with_everything
     #[verifier::external_body]
     pub fn with_everything(
         max_capacity: Option<u64>,
@@ -137,6 +140,7 @@ impl<K, V, S> Cache<K, V, S> {
         ensures r.sp_max_capacity() == max_capacity, r.sp_hasher() == build_hasher, r.sp_weigher() == weigher,
             r.sp_ttl() == time_to_live, r.sp_tti() == time_to_idle,
     { unimplemented!() }
+//@@ END
 }
 
 impl<K, V> Default for CacheBuilder<K, V, Cache<K, V, RandomState>>
@@ -307,6 +311,7 @@ impl<K, V, S> Cache<K, V, S> {
     pub uninterp spec fn sp_weigher(&self) -> Option<Weigher<K, V>>;
     pub uninterp spec fn sp_ttl(&self) -> Option<Duration>;
     pub uninterp spec fn sp_tti(&self) -> Option<Duration>;
+//@@ SIG file=src/sync/cache.rs owner=Cache name=with_everything
     #[verifier::external_body]
     pub fn with_everything(
         max_capacity: Option<u64>,
@@ -322,6 +327,7 @@ impl<K, V, S> Cache<K, V, S> {
         ensures r.sp_max_capacity() == max_capacity, r.sp_hasher() == build_hasher, r.sp_weigher() == weigher,
             r.sp_ttl() == time_to_live, r.sp_tti() == time_to_idle,
     { unimplemented!() }
+//@@ END
 }
 
 impl<K, V> Default for CacheBuilder<K, V, Cache<K, V, RandomState>>
